@@ -21,7 +21,7 @@ import (
 const (
 	boundedRSS  = 512 << 20
 	allocFloor  = 256 << 10 // bytes: a fresh client plus scripted exchange stays below
-	nanosFloor  = 100 * 1e6 // 100 ms
+	nanosFloor  = 250 * 1e6 // 250 ms
 	growthLimit = 64.0      // where the input grows at most 4x
 	// allocation counts are deterministic (runtime.MemStats.TotalAlloc), so a second, tighter rule is
 	// safe for them: more than 128x where the input grows at most 16x (quadratic gives 256x, n log n ~21x)
